@@ -189,7 +189,7 @@ impl SystemController {
                         assert(self.stop_tx.is_some() == pre_tx);
                     }
                 }
-//@insert after="if let Some(stop_tx) = self.stop_tx.take() {"
+//@insert after="if let Some(stop_tx) = self.stop_tx.take() {" alt_after="Some(stop_tx) => {"
                             // this is the first Exit command ever taken: its code is the one delivered   [C09]
                             assert(pre_tx);
                             assert(forall|i: int| 0 <= i < pre_len ==> !is_exit(#[trigger] self.cmd_rx.received()[i]));
